@@ -61,7 +61,10 @@ JudgeDgram(e) ==
       rightOwner == \A k \in 1..n : ("br" \notin DOMAIN e.delivered[k]) \/ e.delivered[k].br \in Owner(e.p)
   IN IF e.handed # listening
      THEN [why |-> IF e.handed THEN <<"C17:listens-while-it-should-not">>
-                   ELSE <<"C17:does-not-listen-while-running", "C07:later-deliveries-stopped">>, tag |-> "dgram-listening-mismatch"]
+                   ELSE <<"C17:does-not-listen-while-running", "C07:later-deliveries-stopped">>
+                        \* a valid broadcast sent to a port of a running bridge reached no callback at all
+                        \o (IF c.cls = "valid" THEN <<"C07:exactly-one-callback-per-valid-broadcast">> ELSE <<>>),
+             tag |-> "dgram-listening-mismatch"]
      ELSE IF ~e.handed
      THEN [why |-> Cl(n = 0, "C17:callback-while-not-listening"), tag |-> "dgram-nobody-listens"]
      ELSE CASE c.cls = "foreign" ->
